@@ -26,8 +26,9 @@ PATTERNS = [
     "/a/{x:int}", "/é/{x}", "/{x}/b", "/{x:int}/{y}", "/a/{x:any}", "/v{x:int}.{y:int}", "/{x}.txt", "/{x:decimal}/b", "/{x:date}/{y:uuid}", "/{x:decimal}/{y}", "/{x:decimal}/{n:int}",
 ]
 UU = "90478484-0988-45fc-91fe-757d90136892"
+UU1 = "6ba7b810-9dad-11d1-80b4-00c04fd430c8"  # version 1; the nil UUID and a version-7-shaped one are in VALUE_TEXTS
 SEGS = [
-    "a", "aXb", "a.b", "a+b", "b", "1", "007", "1.5", "1x5", "1.", "100", "0", "10.0", "1.50", "", UU, UU.upper(),
+    "a", "aXb", "a.b", "a+b", "b", "1", "007", "1.5", "1x5", "1.", "100", "0", "10.0", "1.50", "", UU, UU.upper(), UU1,
     "2021-03-07", "2021-13-45", "2020-02-30", "x\ny", "١", "é", "v1.2", "a.txt", ".txt",
 ]
 PAIR_PATHS = ["/a", "/b", "/1", "/1.5", "/2021-03-07", "/" + UU, "/a/1", "/1/b", "/a/b/c", "/é/1"]
@@ -299,7 +300,7 @@ VALUE_TEXTS = {
     "str": ["a", "a.b", "x\ny", "é", " "],
     "int": ["0", "1", "007", "100", "10", "4300"],
     "decimal": ["0", "1", "100", "10", "1.5", "1.50", "10.0", "0.0", "00.00", "100.00", "0.001", "1000000000000000000000000000000", "0.00000001", "0.0000001"],
-    "uuid": [UU],
+    "uuid": [UU, UU1, "00000000-0000-0000-0000-000000000000", "018f3c2e-7b1a-7c3d-9e4f-0123456789ab", "ffffffff-ffff-ffff-ffff-ffffffffffff", "886313e1-3b8a-5372-9b90-0c9aee199e5d"],
     "date": ["2021-03-07", "2000-02-29", "0001-01-01", "9999-12-31"],
     "any": ["", "a/b", "x\ny", "/"],
 }
